@@ -94,7 +94,7 @@ def gen_enum(seed, k):
             # a C enum is an int, or an unsigned int when a value does not fit (and none is negative)
             lo, hi = INT_RANGE["u32"] if (not has_fields and rng.random() < 0.5) else INT_RANGE["i32"]
         interesting = [v for v in (0, 1, 2, 3, 100, 127, 128, 200, 255, 256, 32767, 32768, 65535, 65536, -1, -2, -128, -129,
-                                   2 ** 31 - 1, 2 ** 31, -2 ** 31, 2 ** 32, 2 ** 63 - 1, -2 ** 63, 2 ** 64 - 1, lo, hi, hi - 1,
+                                   2 ** 31 - 1, 2 ** 31, -2 ** 31, 2 ** 32, 2 ** 63 - 1, -2 ** 63, -2 ** 62, 2 ** 62, 2 ** 64 - 1, lo, hi, hi - 1,
                                    lo + 1, hi - nv, lo + nv) if lo <= v <= hi]
         if hi == 2 ** 32 - 1 and not int_repr:
             # C enum read as unsigned int: most values beyond i32::MAX
@@ -189,6 +189,11 @@ def gen_enum(seed, k):
             # `!k` is a constant expression educe may refuse for an enum without a primitive representation (a
             # documented limit) — but if it accepts it, the value is -k-1
             forms = ["!%d" % (-d - 1)]
+            maybe_refused.append(True)
+        if not int_repr and not reprs and rng.random() < 0.3 and (d in (-2 ** 63, -2 ** 62) or (d > 0 and d & (d - 1) == 0)):
+            # a shift is a constant expression educe may refuse as well — if it accepts it, the value is the one rustc
+            # computes in `isize` (`1 << 63` is isize::MIN, `3 << 62` is negative)
+            forms = ["1 << 63" if d == -2 ** 63 else "3 << 62" if d == -2 ** 62 else "1 << %d" % (d.bit_length() - 1)]
             maybe_refused.append(True)
         if int_repr:
             forms += ["(%d) + 1" % (d - 1) if d - 1 >= lo else "%d" % d, "%d * 1" % d if d >= 0 else "-(%d)" % (-d)]
@@ -387,6 +392,15 @@ def judge_obs(chk, which, cases, obs, bad_base, dropped):
         if cid in dropped and e.get("maybe_refused") and any(d.get("code") is None for d in dropped[cid]):
             # refused by educe itself (non-literal discriminant without a primitive representation): allowed
             chk.count("refused-non-literal-discriminant")
+            continue
+        if cid in dropped and e.get("int_repr") and any(d.get("code") is None for d in dropped[cid]):
+            # an enum with a primitive representation takes any constant expression as a discriminant (the tag is read
+            # from memory): educe's own refusal of one is the property's "never by something else than the declared value"
+            # turned into a refusal of the declaration
+            d = next(d for d in dropped[cid] if d.get("code") is None)
+            chk.violation("refused-with-primitive-repr|%s" % re.sub(r"`[^`]*`", "`_`", d["message"])[:60],
+                          "the enum has a primitive representation (%s) and valid discriminants, educe refuses it: %s\n%s"
+                          % ("+".join(e["reprs"]), d["message"], text), files)
             continue
         if cid in dropped:
             # the enum is valid Rust (baseline) but the derive does not compile: that is C01's finding;
